@@ -178,8 +178,15 @@ def _convert_params(params: Dict[str, Callable]) -> Dict[str, Any]:
         "unit": lambda x: {"unit": x[0]},
     }
 
+    arity = {"range": 2, "unit": 1}
+
     values: Dict[str, Callable] = {}
     for name, value in params.items():
+        if name in arity and len(value) != arity[name]:
+            # without parentheses a following parameter is read as more arguments
+            raise ValueError(
+                f"{name} takes {arity[name]} argument(s), got {len(value)}: {value}"
+            )
         values.update(conversion_table[name](value))
 
     return values
